@@ -15,6 +15,15 @@ Vocabulary (defined in `Lemmas/Struct.lean`, all decidable):
 * `Quiet m stk g` — additionally: no EOF in `g` and no end token of mode `m` at nesting depth 0.
 * `startStack s` — the bracket a start token contributes.
 * `DeclUnit` / `DeclSeq`, `StmtUnit` / `StmtSeq` — complete constructs of a declaration block / of a sheet.
+* wave 3 (`Model/StructCut.lean`, `Lemmas/StructMedia.lean`): `mediaRules O ns ts` — the rules `ts` yields as
+  content of an `@media` block; `MediaUnit` / `MediaSeq` — complete constructs of such a block; `MqShape` — the
+  media query part; `MFrame`, `openToks`, `openRules` — `@media` rules open at a cut, outermost first;
+  `Open` / `Cut` with `Cut.ok` (decides all hypotheses) and `Cut.predict` — truncation certificates;
+  `mediaStmtRules` — what one statement of a media block appends.
+* `sheetToks text doC` (`Model/StructText.lean`) — the token list of `parseString(text)` in the composed model
+  (tokenizer model of C05, then (type, value) projection).
+* `nestCss`, `QuietCss`, `endTokCss`, `plainTokS` (`Lemmas/StructCss.lean`) — CSS-level classification and the
+  guard of the known finding.
 -/
 namespace CssVerif.Props.C04
 open CssVerif.Struct CssVerif.Proto
